@@ -126,7 +126,10 @@ pub fn run_worker(
     findings: &Findings,
     track_path: Option<PathBuf>,
 ) -> WorkerOutcome {
-    let total_cases = property.cases(tier);
+    let total_cases = std::env::var("VERIF_CASES")
+        .ok()
+        .and_then(|text| text.parse::<u32>().ok())
+        .unwrap_or_else(|| property.cases(tier));
     let my_cases = total_cases / shards + u32::from(shard < total_cases % shards);
     let env = RefCell::new(Env::new(tier));
     env.borrow_mut().track_path = track_path;
